@@ -24,6 +24,11 @@ void ThreePointsNumericalDerivative::updateDerivatives(const ParameterList& para
         der1_[i] = log(-1);
         der2_[i] = log(-1);
       }
+      // Analytical derivatives of the wrapped function, if any, must not stay disabled:
+      if (function1_)
+        function1_->enableFirstOrderDerivatives(computeD1_);
+      if (function2_)
+        function2_->enableSecondOrderDerivatives(computeD2_);
       return;
     }
 
